@@ -719,6 +719,12 @@ fn record(seed: u64, n: usize, path: &str) {
                 tail.push(Call::Flush);
             }
         }
+        if g.ending <= 3 && g.r.below(2) == 0 {
+            // the last packets before the end are consumed (acknowledged) but not flushed yet
+            for _ in 0..1 + g.r.below(3) {
+                tail.push(Call::Arrive { off: 0, len: g.pick_len(0) });
+            }
+        }
         match g.ending {
             0 | 2 => {
                 tail.push(Call::FlushAll);
